@@ -57,3 +57,22 @@ CONSTS = [
     ("c_ECDH_P521_MAGIC", "dpapi_ng._gkdi", "ECDHKey('P521', 0, 0, 0).pack()[:4]", "bytes"),
     ("c_GETKEY_OPNUM", "dpapi_ng._gkdi", "GetKey(b'').opnum", "Z"),
 ]
+
+# ---- whole functions as Prelude/PyAst syntax (gen/F_gkdi.v). Two engineers append to this list: only ever APPEND
+# `FLOWS += [...]` blocks below, never rewrite an existing block.
+from ..flow import Flow  # noqa: E402
+
+FLOWS = []
+
+# part "keys" (world coq/Flow/World_gkdi_keys.v; ties coq/Proofs/Flow_gkdi_keys_chain.v, Flow_gkdi_keys_kek.v)
+FLOWS += [
+    Flow("k_flow_compute_kdf_context", "_gkdi.py", "compute_kdf_context", props=("C02", "C03")),
+    Flow("k_flow_compute_l1_key", "_gkdi.py", "compute_l1_key", props=("C02", "C03")),
+    Flow("k_flow_compute_l2_key", "_gkdi.py", "compute_l2_key", props=("C02", "C03")),
+    Flow("k_flow_compute_kek", "_gkdi.py", "compute_kek", props=("C03",)),
+    Flow("k_flow_compute_kek_from_public_key", "_gkdi.py", "compute_kek_from_public_key", props=("C03",)),
+    Flow("k_flow_compute_public_key", "_gkdi.py", "compute_public_key", props=("C03",)),
+    Flow("k_flow_gke_is_public_key", "_gkdi.py", "GroupKeyEnvelope.is_public_key", props=("C03",)),
+    Flow("k_flow_gke_get_kek", "_gkdi.py", "GroupKeyEnvelope.get_kek", props=("C03",)),
+    Flow("k_flow_gke_new_kek", "_gkdi.py", "GroupKeyEnvelope.new_kek", props=("C03",)),
+]
